@@ -68,12 +68,21 @@ func contractMentions(fc *FuncContract, prop string) bool {
 			}
 		}
 	}
-	for _, k := range []string{"safety", "frame", "props", "cancelable", "refinetags"} {
-		if v, ok := fc.Opts[k]; ok && hasTag(splitList(strings.Trim(v, "[]")), prop) {
+	for _, k := range []string{"safety", "frame", "props", "cancelable", "nonblocking", "refinetags", "guarded"} {
+		if v, ok := fc.Opts[k]; ok && hasTag(optTags(v), prop) {
 			return true
 		}
 	}
 	return false
+}
+
+// optTags extracts the tag list from an option value such as "m mu [C19,C20]".
+func optTags(v string) []string {
+	i, j := strings.Index(v, "["), strings.LastIndex(v, "]")
+	if i < 0 || j < i {
+		return splitList(v)
+	}
+	return splitList(v[i+1 : j])
 }
 
 func findSSA(p *Program, name string) []*ssa.Function {
